@@ -153,6 +153,21 @@ def run(p: Program, rep: Report, tier: str) -> None:
                 rep.violation("R17.1", construct(m, text="delete by stale position"), where(m, node),
                               f"{name}: {desc}: after the first deletion the remaining positions are off by one, so with three or more pairs of the key a pair of ANOTHER key is removed (or IndexError is raised) "
                               "and the item list no longer matches a plain list of pairs")
+    # ... and never as a contiguous SLICE with computed bounds: the pairs of one key need not be adjacent in the pair list
+    from ..common import with_helpers as _wh17
+    for name, m in sorted(mmm.methods.items()):
+        for f_ in _wh17(p, m):
+            for n in ast.walk(f_.node):
+                sl = None
+                if isinstance(n, ast.Delete):
+                    sl = next((t for t in n.targets if isinstance(t, ast.Subscript) and isinstance(t.slice, ast.Slice) and ast.unparse(t.value).endswith("_list")), None)
+                elif isinstance(n, ast.Assign) and len(n.targets) == 1 and isinstance(n.targets[0], ast.Subscript) and isinstance(n.targets[0].slice, ast.Slice) \
+                        and ast.unparse(n.targets[0].value).endswith("_list") and isinstance(n.value, (ast.List, ast.Tuple)) and not n.value.elts:
+                    sl = n.targets[0]
+                if sl is not None and (sl.slice.lower is not None or sl.slice.upper is not None):
+                    rep.violation("R17.1", construct(m, text="pairs removed as a contiguous slice"), where(f_, n),
+                                  f"{name}: `{' '.join(ast.unparse(n).split())[:70]}` removes a contiguous run of the pair list computed from the number of occurrences: the pairs of one key need not be "
+                                  "adjacent (a=1&b=2&a=3), so a pair of ANOTHER key is removed and a stale pair of this key stays")
     for name in expect_methods:
         if name not in mmm.methods:
             rep.violation("R17.1", construct(mmm, text=f"{name} missing"), mmm.loc, f"MutableMultiMapping.{name} vanished")
@@ -210,6 +225,36 @@ def run(p: Program, rep: Report, tier: str) -> None:
                           "its keys are unpacked as (key, value)")
         if not nm and any(isinstance(n, ast.Call) and isinstance(n.func, ast.Name) and n.func.id == "isinstance" for n in ast.walk(init_.node)):
             rep.ok("R17.2", f"{init_.fq}: the mapping branch is selected by the abstract Mapping type")
+    # a subclass that wraps the constructor must hand the base constructor its argument as it came: the base has a branch of its
+    # own for multi-mappings (multi_items()); a pre-normalisation through `.items()` keeps only the last value of every key
+    for sub in p.subclasses(mm):
+        own = sub.methods.get("__init__") if "__init__" in dict.keys(sub.methods) else None
+        if own is None or own.cls is not sub:
+            continue
+        rep.analysed(own.fq)
+        try:
+            spaths, _sc, _si = run_paths(p, own, sub, inline=lambda fi: False)
+        except Exception as e_:
+            rep.undecide("R17.2", f"{own.fq} is not analysable ({e_})")
+            continue
+        rawp = ("param", own.params[1]) if len(own.params) > 1 else None
+        for pa in spaths:
+            if pa.exit != "return":
+                continue
+            sup = [e for e in pa.events if e.kind == "call" and e.a[0] == "func" and e.a[1].endswith(".__init__")]
+            if len(sup) != 1:
+                rep.undecide("R17.2", f"{own.fq}: a path with {len(sup)} base constructor calls")
+                continue
+            arg = sup[0].b[0] if sup[0].b else dict(sup[0].c or ()).get("raw")
+            if arg == rawp or arg is None and rawp is None:
+                rep.ok("R17.2", f"{own.fq}: the base constructor receives the argument unchanged")
+            elif arg is not None and any(t[0] == "call" and ((t[1][0] == "attr" and t[1][2] in ("items", "keys", "values") and t[1][1] == rawp) or (t[1] == ("builtin", "dict") and t[2][:1] == (rawp,)))
+                                         for t in subterms(arg)):
+                rep.violation("R17.2", construct(own, text="base constructor fed from raw.items()"), where(own),
+                              f"{own.fq} builds the pairs for the base constructor from `{rawp[1]}.items()`: for a multi-mapping (QueryParams, MutableMultiMapping) items() yields one value per key, "
+                              "so duplicate pairs are dropped before the base constructor's own multi_items() branch can keep them (multi_items / getlist disagree with the source)")
+            else:
+                rep.ok("R17.2", f"{own.fq}: the base constructor receives {show(arg)[:60] if arg else 'nothing'} (no single-valued view of the argument)")
     rep.require_instances("R17.2", 4)
 
     # ---------------------------------------------------------------- R17.3 no aliasing out
